@@ -1020,7 +1020,13 @@ def register(M):
                  "names": {0: "try_fold"}, "cells": [(0, facc, racc)] if facc is not racc else []})
         else:
             acc, errc, errv = run(items)
-        return tm.ite(errc, tm.err(errv), tm.ok(acc))
+            ev.discover += 1
+            try:
+                facc, _fc, _fv = run(items, True)
+            finally:
+                ev.discover -= 1
+        # the Ok payload is only observable when no step failed, where it equals the accumulation with every step Ok
+        return tm.ite(errc, tm.err(errv), tm.ok(facc))
 
     @reg("std::iter::Iterator::for_each")
     def it_for_each(ev, fr, prog, fty, args, cx):
